@@ -22,5 +22,17 @@ ASSUME EdgeReport == PrintT(ToJson([edgereport |-> TRUE, cases |-> Cardinality(S
 GenInit == cur \in Space
 GenNext == UNCHANGED cur
 GenSpec == GenInit /\ [][GenNext]_cur
-Emit == PrintT(ToJson([fam |-> cur.fam, d |-> cur.d, dev |-> DevStr(cur, 1, ""), radius |-> Cardinality(Deviations(cur))]))
+(* Pairs of dimensions the code couples (one statement reads both): the      *)
+(* quick tier always includes these radius-2 cases, the rest is sampled.      *)
+(*   gen : Write(value) formats by the negotiated media (writer.go doJson);   *)
+(*         an error status with / without a body; what was written before a   *)
+(*         run-time error.   echo : a body with a method that carries one.    *)
+Coupled(c) ==
+    IF c.fam = "gen"
+    THEN \/ c.d.body = "value" /\ c.d.accept # "none"
+         \/ StatusOf(c.d.status) >= 400 /\ c.d.body = "none"
+         \/ c.d.fault = "after" /\ (c.d.hdr # "none" \/ c.d.status # "default")
+    ELSE c.d.body # "none" /\ c.d.method # "GET"
+Emit == PrintT(ToJson([fam |-> cur.fam, d |-> cur.d, dev |-> DevStr(cur, 1, ""), radius |-> Cardinality(Deviations(cur)),
+                       coupled |-> Coupled(cur)]))
 =============================================================================
